@@ -73,6 +73,10 @@ func (w WLCase) build() (*spg.WLRecipe, error) {
 			}
 			return p.String(), 0
 		}
+	case "SFNone+char", "SFDigits1+char":
+		// both fields set: the function decides, the character is ignored
+		r.SeparatorFunc = presetFuncs[strings.TrimSuffix(w.Sep.Kind, "+char")]
+		r.SeparatorChar = "-"
 	case "customMixed":
 		// a caller-written separator function that returns nothing or a
 		// hyphen, one bit of entropy
@@ -104,8 +108,11 @@ func (w WLCase) sepModel() (vals []string, entropy float64, retry bool) {
 		return []string{""}, 0, false
 	case "char":
 		return []string{w.Sep.Char}, 0, false
-	case "SFNone":
+	case "SFNone", "SFNone+char":
 		return []string{""}, 0, false
+	case "SFDigits1+char":
+		m := presetModel["SFDigits1"]
+		cr = &m
 	case "customMixed":
 		return []string{"-", ""}, 1, false
 	case "sf", "custom0":
@@ -300,6 +307,8 @@ func (w WLCase) entropyModel() float64 {
 		se = 0
 	} else if w.Sep.Kind == "customMixed" {
 		se = 1
+	} else if w.Sep.Kind == "SFDigits1+char" {
+		se = math.Log2(10)
 	} else if w.Sep.Kind == "sf" || presetModel[w.Sep.Kind].Length > 0 {
 		// separator functions report the entropy of their own recipe
 		var cr ref.CharRecipe
@@ -333,6 +342,11 @@ var wlLists = [][]string{
 	// combining marks, non-decimal digits, a digraph with its own title case
 	{"snake_case", "l’eau", "m²x"},
 	{"re\u0301sume\u0301", "o'neil", "new-york", "ǆungla"},
+	// twins whose title form differs beyond the first letter / is not upper case
+	{"new-york", "New-York", "ab"},
+	{"ǆep", "ǅep", "b"},
+	// lower-case letters that have no title-case form: uncapitalisable
+	{"ßx", "ﬁsh", "ab", "cd"},
 }
 
 var wlSchemes = []string{"none", "first", "all", "one", "random"}
@@ -353,6 +367,8 @@ func wlSeps() []Sep {
 		{Kind: "sf", Recipe: &ref.CharRecipe{Length: 1, AllowChars: "abcdefghijklmnopqrstuvwxyzABCD", RequireSets: []string{"123"}}},
 		{Kind: "custom0", Recipe: &ref.CharRecipe{Length: 1, AllowChars: "xy"}},
 		{Kind: "customMixed"},
+		{Kind: "SFNone+char"},
+		{Kind: "SFDigits1+char"},
 	}
 }
 
